@@ -83,7 +83,7 @@ func init() {
 		Name:  "FLOW-width",
 		Doc:   "every integer conversion applied to the number returned by strconv.Atoi/ParseInt/ParseUint can hold every value that parse can return (given its bitSize), unless branch facts at the conversion bound the value to the target type: a parsed number never wraps around silently",
 		Props: []string{"C07", "C01"},
-		Floor: 3,
+		Floor: 2,
 		Run: func(c *Ctx, s *core.Sink) {
 			n := map[string]int{}
 			for _, f := range c.P.ModFns {
